@@ -12,6 +12,8 @@ Monitored, fail closed:
   * the or-chains of `AttributeDocString.help_string` and `FieldWrapper.help` -> HELP_STRING_CHAIN / HELP_CHAIN, and
     the statements around the latter (explicit help= first, "" -> None).
 
+  * `_split_at_comment` (the inline comment starts at the first '#' outside a string literal): the frame of its while
+    loop is checked and the if/elif chain of the loop body is TRANSLATED into `split_step_gen`;
   * three repaired places (the cache aliasing in get_attribute_docstring, the upward comment walk, the class-docstring
     entry of a class that does not declare the field): the shape before AND after each repair is recognised and a
     boolean fact FIX_ALIAS / FIX_WALK / FIX_ENTRY says which one the source has.
@@ -157,11 +159,10 @@ EXPECT = {
         '    assert 0 <= line < len(code_lines)\n'
         '    assert _contains_field_definition(code_lines[line])\n'
         '    line_str = code_lines[line]\n'
-        '    parts = line_str.split(S0, maxsplit=1)\n'
-        '    if len(parts) != 2:\n'
-        '        return S1\n'
-        '    comment = parts[1].strip()\n'
-        '    return comment\n'
+        '    _, comment = _split_at_comment(line_str)\n'
+        '    if comment is None:\n'
+        '        return S0\n'
+        '    return comment.strip()\n'
     ),
     '_get_comment_ending_at_line': (
         'def _get_comment_ending_at_line(code_lines: list[str], line: int):\n'
@@ -315,6 +316,77 @@ def _check(tree, name, consts_ok, cls=None, repairable=False):
     return (r, False) if repairable else r
 
 
+# --- _split_at_comment: the frame of the loop is checked, the decision chain of its body is TRANSLATED ---------
+def _split_step(fn, H):
+    """-> Gallina text of `split_step_gen (quote : option ascii) (char : ascii) : sstep`"""
+    body = [b for b in fn.body if not (isinstance(b, ast.Expr) and isinstance(b.value, ast.Constant))]
+    if [a.arg for a in fn.args.args] != ["line"] or len(body) != 4:
+        raise Unrecognised("_split_at_comment: signature / number of statements")
+    init_q, init_i, loop, ret = body
+    if not (isinstance(init_q, (ast.AnnAssign, ast.Assign)) and unparse(init_q).replace("quote: str | None = ", "quote = ") == "quote = None"):
+        raise Unrecognised("_split_at_comment: initial quote")
+    if unparse(init_i) != "i = 0":
+        raise Unrecognised("_split_at_comment: initial index")
+    if not (isinstance(ret, ast.Return) and unparse(ret) == "return (line, None)"):
+        raise Unrecognised("_split_at_comment: final return")
+    if not (isinstance(loop, ast.While) and unparse(loop.test) == "i < len(line)" and not loop.orelse and len(loop.body) == 3
+            and unparse(loop.body[0]) == "char = line[i]" and isinstance(loop.body[1], ast.If) and unparse(loop.body[2]) == "i += 1"):
+        raise Unrecognised("_split_at_comment: loop frame")
+    seen_hash = []
+
+    def cond(n, q):
+        if isinstance(n, ast.BoolOp):
+            op = " || " if isinstance(n.op, ast.Or) else " && "
+            return "(" + op.join(cond(v, q) for v in n.values) + ")"
+        if isinstance(n, ast.Compare) and len(n.ops) == 1 and isinstance(n.ops[0], ast.Eq) and unparse(n.left) == "char":
+            r = n.comparators[0]
+            if isinstance(r, ast.Constant) and isinstance(r.value, str) and len(r.value) == 1:
+                if r.value == H:
+                    seen_hash.append(1)
+                return f"Ascii.eqb char {_cchar_any(r.value)}"
+            if isinstance(r, ast.Name) and r.id == "quote" and q:
+                return "Ascii.eqb char q"
+        raise Unrecognised(f"_split_at_comment: condition {unparse(n)[:80]}")
+
+    def action(stmts, q):
+        if not stmts:
+            return "SKeep"
+        if len(stmts) == 1 and isinstance(stmts[0], ast.If):
+            return chain(stmts[0], q)
+        if len(stmts) != 1:
+            raise Unrecognised("_split_at_comment: arm with several statements")
+        t = unparse(stmts[0])
+        if t == "i += 1":
+            return "SSkipNext"
+        if t == "quote = None":
+            return "SQuote None"
+        if t == "quote = char":
+            return "SQuote (Some char)"
+        if t == "return (line[:i], line[i + 1:])":
+            return "SReturn"
+        raise Unrecognised(f"_split_at_comment: statement {t[:80]}")
+
+    def chain(node, q):
+        test = unparse(node.test)
+        if test in ("quote is not None", "quote is None"):
+            if q is not None:
+                raise Unrecognised("_split_at_comment: nested test of quote")
+            some, none = (node.body, node.orelse) if test == "quote is not None" else (node.orelse, node.body)
+            return f"match quote with\n  | Some q => {action(some, True)}\n  | None => {action(none, False)}\n  end"
+        return f"(if {cond(node.test, q)} then {action(node.body, q)} else {action(node.orelse, q)})"
+
+    text = chain(loop.body[1], None)
+    if len(seen_hash) != 1:
+        raise Unrecognised("_split_at_comment: the comment character is not tested exactly once")
+    return text
+
+
+def _cchar_any(c):
+    if not (len(c) == 1 and 32 <= ord(c) < 127):
+        raise Unrecognised(f"character literal {c!r}")
+    return '""""%char' if c == '"' else f'"{c}"%char'
+
+
 def _one_char(s, what):
     if not (isinstance(s, str) and len(s) == 1 and 32 < ord(s) < 127):
         raise Unrecognised(f"{what}: expected a single printable character, got {s!r}")
@@ -355,7 +427,8 @@ def emit(repo: str) -> str:
     _check(t, "_is_empty", lambda c: True if c == [""] else None)
     _check(t, "_is_comment", lambda c: True if c == [H] else None)
     _check(t, "_get_comment_at_line", lambda c: True if c == ["", H, H] else None)
-    _check(t, "_get_inline_comment_at_line", lambda c: True if c == [H, ""] else None)
+    _check(t, "_get_inline_comment_at_line", lambda c: True if c == [""] else None)
+    split_step = _split_step(find_def(t, "_split_at_comment"), H)
     TS, TD = _check(t, "_get_docstring_starting_at_line",
                     lambda c: (c[0], c[1]) if len(c) == 6 and c[2:] == ["", "", "", "\n"] else None)
     if TS != "'''" or TD != '"""':
@@ -463,11 +536,13 @@ def emit(repo: str) -> str:
         f"Definition FIX_WALK : bool := {'true' if fix_walk else 'false'}.   (* comment walk stops at code lines *)\n"
         f"Definition FIX_ENTRY : bool := {'true' if fix_entry else 'false'}.  (* class-docstring entry of a non-declaring class kept *)\n"
         f"Definition FIX_ALIAS : bool := {'true' if fix_alias else 'false'}.  (* the cached AttributeDocString is copied, not aliased *)\n"
+        "(* the loop body of _split_at_comment, translated statement by statement *)\n"
+        f"Definition split_step_gen (quote : option ascii) (char : ascii) : sstep :=\n  {split_step}.\n"
         "(* the model instantiated with the regenerated facts *)\n"
         "Definition contains_def_gen := contains_def HASH COLON EQUALS.\n"
-        "Definition view_gen := view HASH COLON EQUALS TRIPLE_S TRIPLE_D.\n"
-        "Definition scan_lines_gen := scan_lines HASH COLON EQUALS TRIPLE_S TRIPLE_D FIX_WALK.\n"
-        "Definition scan_class_gen := scan_class HASH COLON EQUALS TRIPLE_S TRIPLE_D FIX_WALK FIX_ENTRY.\n"
+        "Definition view_gen := view HASH COLON EQUALS TRIPLE_S TRIPLE_D split_step_gen.\n"
+        "Definition scan_lines_gen := scan_lines HASH COLON EQUALS TRIPLE_S TRIPLE_D split_step_gen FIX_WALK.\n"
+        "Definition scan_class_gen := scan_class HASH COLON EQUALS TRIPLE_S TRIPLE_D split_step_gen FIX_WALK FIX_ENTRY.\n"
         "Definition merge_gen := merge ACC_PARTS.\n"
         "Definition acc_pure_gen := acc_pure ACC_PARTS.\n"
         "Definition get_doc_gen := get_doc ACC_PARTS FIX_ALIAS.\n"
